@@ -19,7 +19,8 @@ RULE = (
     "shapes: 2-4 time components with start offsets; per input: info given at init | provided later through "
     "exchange_infos | FromOutput rule | provided after another input's info arrived, pulled initially or not; "
     "per output: info at init | later | FromInput rule | after an input's info, data available immediately or "
-    "only after all initial pulls or after one particular initial pull; arbitrary wiring (self loops, cycles), static outputs and inputs, all listing/link orders; components "
+    "only after all initial pulls or after one particular initial pull; arbitrary wiring (self loops, cycles), static outputs and inputs, all listing/link orders; "
+    "a quarter of the used outputs reach all their consumers through ONE shared pass-through adapter (branching behind an adapter); components "
     "feed infos/data stepwise over repeated connect calls as the connect-phase documentation describes. "
     "Oracle = least fixpoint of the documented protocol over the items OP/IE/OE/DPU/DP: all complete => "
     "connect() succeeds with every component VALIDATED, all infos exchanged, in_data == producer's initial "
